@@ -165,6 +165,23 @@ def outcome(path, mode, base_cols, base_ts_ok):
                 lo = -1 if what in ("nodes.population", "nodes.individual", "mutations.parent", "individuals.parents") else 0
                 if len(col) and (int(col.min()) < lo or int(col.max()) >= hi):
                     return "diff_bad", "loaded tree sequence has an out-of-range reference in %s" % what
+            # the time requirements, judged from the columns: a parent is strictly older than its child; a mutation with a known time is not
+            # younger than its node, strictly younger than the parent of its branch at the site, and not older than its parent mutation
+            tm = x.nodes.time
+            for e in x.edges:
+                if not tm[e.parent] > tm[e.child]:
+                    return "diff_bad", "loaded tree sequence has an edge whose parent is not older than its child"
+            pos = x.sites.position
+            for m in x.mutations:
+                if tskit.is_unknown_time(m.time):
+                    continue
+                if not m.time >= tm[m.node]:
+                    return "diff_bad", "loaded tree sequence has a mutation younger than its node"
+                above = [e.parent for e in x.edges if e.child == m.node and e.left <= pos[m.site] < e.right]
+                if above and not m.time < tm[above[0]]:
+                    return "diff_bad", "loaded tree sequence has a mutation that is not younger than the parent node of its branch"
+                if m.parent != -1 and not tskit.is_unknown_time(x.mutations.time[m.parent]) and not m.time <= x.mutations.time[m.parent]:
+                    return "diff_bad", "loaded tree sequence has a mutation older than its parent mutation"
             ts1 = x.tree_sequence()
             t2 = x.copy()
             t2.drop_index()
@@ -288,6 +305,16 @@ def make_faults(rng, data, lay, quick):
             for q in sorted({0, it["al"] - 1}):
                 o1 = it["as"] + 4 * q
                 faults.append(dict(t="byte", off=o1, bytes=[[o1 + i, b] for i, b in enumerate((0x01, 0x00, 0x00, 0x7F))]))
+    # (d3) targeted data faults: every time value replaced by every other value that occurs among the node and mutation times (a time equal
+    # to that of a related row is what the strict / non-strict requirements are about)
+    titems = [it for it in lay["items"] if it["key"] in ("nodes/time", "mutations/time") and it["type"] == 9]
+    tvals = sorted({bytes(data[it["as"] + 8 * q:it["as"] + 8 * q + 8]) for it in titems for q in range(it["al"])})
+    for it in titems:
+        for q in range(min(it["al"], 8 if quick else 60)):
+            o1 = it["as"] + 8 * q
+            for v in tvals[:8 if quick else 40]:
+                if v != bytes(data[o1:o1 + 8]):
+                    faults.append(dict(t="byte", off=o1, bytes=[[o1 + i, v[i]] for i in range(8)]))
     # (d) random substitutions in the data region
     for _ in range(150 if quick else 2000):
         off = rng.randrange(keys_end, size)
